@@ -414,6 +414,12 @@ def run(chk):
             gen = freeze_gen(mk())
             new, b = getattr(gen, method)()
             op, start, sz = slice_of(b, method)
+            from ..alg import ROWS_REST
+            if ROWS_REST in tuple(start) or ROWS_REST in tuple(sz):
+                # a window of rows (dynamic_slice_in_dim along axis 0): the other axes are taken in full by construction
+                if len(start) != 2 or len(sz) != 2 or lift(sz[0]) != lift(sizes[0]):
+                    raise Violation("batch shape", f"a window of {sz[0]} rows", f"{sizes[0]} rows")
+                return f"batch = {sizes[0]} rows of the store from the index on"
             want = tuple(lift(x) for x in sizes)
             got = tuple(lift(x) for x in sz)
             if got != want:
